@@ -326,6 +326,13 @@ BIG_FLOORS = {
         'line>=100000': {'paragraphs': 1},
     },
     'thorough': {
+        'entry>=8192': {'paragraphs': 1300, 'armour': 16000, 'comments': 19000, 'api': (17000, 13000, 3900, 3900),
+                        'form': (3900, 4000, 1900, 1900, 1400)},
+        'entry>=65536': {'paragraphs': 200, 'armour': 2500, 'comments': 3100, 'api': (2700, 2000, 600, 600), 'form': (600, 600, 290, 310, 220)},
+        'fields>=200': {'paragraphs': 290, 'armour': 3800, 'comments': 4400, 'api': (3900, 3000, 910, 910), 'form': (870, 910, 420, 410, 340)},
+        'line>=10000': {'paragraphs': 570, 'armour': 7400, 'comments': 8500, 'api': (7700, 5900, 1700, 1700), 'form': (1700, 1700, 860, 890, 640)},
+        'conts>=1000': {'paragraphs': 280, 'armour': 3700, 'comments': 4400, 'api': (3800, 2900, 880, 880), 'form': (850, 890, 440, 470, 310)},
+        'line>=100000': {'paragraphs': 49},
     },
 }
 BIG_FLAT_FLOORS = {
@@ -336,7 +343,14 @@ BIG_FLAT_FLOORS = {
                            'big:place:between': 7, 'big:place:first': 5, 'big:place:last': 6, 'doc:big': 63},
               'route': 3100,                       # every route:<route> counter (paragraphs written through that route)
               'monitors': {'M.big': 1900, 'M.get_as_string': 11000}},
-    'thorough': {'counters': {}, 'route': 0, 'monitors': {}},
+    'thorough': {'counters': {'big:class:long-line': 340, 'big:class:many-conts': 270, 'big:class:many-fields': 290,
+                              'big:class:threshold': 900, 'big:entry-bytes=16384': 90, 'big:entry-bytes=4096': 100,
+                              'big:entry-bytes=65536': 7, 'big:entry-bytes=8191': 81, 'big:entry-bytes=8192': 120,
+                              'big:entry-bytes=8193': 120, 'big:entry-bytes=k*8192+-2': 230, 'big:paragraph-bytes>=8192': 1400,
+                              'big:place:alone': 320, 'big:place:between': 420, 'big:place:first': 400, 'big:place:last': 350,
+                              'doc:big': 1800},
+                 'route': 160000,
+                 'monitors': {'M.big': 54000, 'M.get_as_string': 670000}},
 }
 for _tier, _table in BIG_FLOORS.items():
     _c = FLOORS[_tier]['counters']
@@ -701,7 +715,7 @@ def big_fields(spec):
     rr.shuffle(nums)
     seps = BIG_SEPS[alpha]
     out = []
-    for j, num in enumerate(nums):
+    for num in nums:
         name = rr.choice(['G', 'g', 'X-G', 'Zz', 'a', '_', '0x', '+', 'Field']) + '.%d.' % num + rr.choice(['', '', 'x', '-Y', '_z', '!'])
         first = rr.choice(PADS_L) + rr.choice(['v%d' % num, 'v%d' % num, '', ':%d' % num, '#%d' % num, 'a%sb %d' % (rr.choice(seps), num)]) \
             + rr.choice(PADS_R)
@@ -1216,7 +1230,7 @@ def size_tags(text, ctx=None):
     """Size classes of ONE dumped paragraph, measured on the text the library produced: an entry = a line that does not start
     with a blank/tab + the lines that do.  -> set of BIG_TAGS (+ exact-size / placement counters when ctx is given)."""
     tags = set()
-    sizes, cur, ncont, maxcont = [], 0, 0, 0
+    sizes, ncont, maxcont = [], 0, 0
     for line in dumped_lines(text):
         n = len(line)
         if n >= 10000:
@@ -1786,7 +1800,7 @@ def run_case(ctx, case):
 
 
 LEVEL_TEXT = ('Runtime monitoring of the live Deb822 / iter_paragraphs / Dsc / Changes code: seeded model documents '
-              '(3k quick / 160k thorough random, with character profiles any / latin-1 / cp1252 / ASCII, + an enumerated '
+              '(2.6k quick / 160k thorough random, with character profiles any / latin-1 / cp1252 / ASCII, + an enumerated '
               'hostile-first-line x hostile-continuation grid + every admissible first character of a field name + a "big" class: '
               'entries of 4096..65536 bytes at the buffer-size thresholds, 200+ fields, 10k-140k character lines, 1000+ '
               'continuation lines) are built through __setitem__, written by the library through EVERY output route (dump() '
@@ -1796,13 +1810,14 @@ LEVEL_TEXT = ('Runtime monitoring of the live Deb822 / iter_paragraphs / Dsc / C
               'TextIOWrapper and disk files in utf-8, iso-8859-1/latin-1, cp1252, utf-16 - + a real binary file, x '
               'plain/clearsign armour x comments x leading blank lines x API); every re-read is compared with the model '
               'document itself.  Held-on-observed: reach is the workload; the in-memory form classes are covered completely '
-              'for every document, the real-file forms rotate over the cells of the form grid (each encoding family is seen '
+              'for every document ("big" documents: every output route, a rotating third of the form grid), the real-file forms rotate over the cells of the form grid (each encoding family is seen '
               'through both kinds within one document), the documents are sampled.')
 LEVEL_NOTE = ('Trusted: CPython (incl. its codecs and io layer), the model (first line trimmed of space/tab + verbatim '
               'continuation lines), the armour/comment decorators.  Domain excludes names starting with #/-, line-breaking '
               'control characters inside values, whitespace-only continuation lines, armour around more than one paragraph, '
               'python-apt, files opened with an encoding other than the one they were written in.  Not judged (counted '
               'only, the live tree disagrees there): Dsc/Changes on a text file object whose declared encoding is not UTF-8 '
-              'unless the text is pure ASCII in an ASCII-compatible 8-bit encoding.')
+              'unless the text is pure ASCII in an ASCII-compatible 8-bit encoding; two output routes whose TEXTS differ while both '
+              're-read as the model (never seen on the live tree).')
 TECHNIQUE = ('runtime monitoring: boundary history-vs-model oracle M (the model document vs what every input-form class '
              're-reads from the library\'s own dump); anchor reach via sys.monitoring')
